@@ -150,9 +150,17 @@ def sh(cmd, cwd=None, env=None, timeout=1800, inp=None):
 
 
 # ----------------------------------------------------------------------------- Coq build
-def coq_sources():
+def coq_sources(all_files=False):
+    """All .v files of the development; with VERIF_COQ_ONLY=C05,C14 (used while several
+    properties are being developed at once) only Prelude.v and the files of those properties."""
     d = os.path.join(COQ, "theories")
-    return sorted(f for f in os.listdir(d) if f.endswith(".v"))
+    files = sorted(f for f in os.listdir(d) if f.endswith(".v"))
+    only = os.environ.get("VERIF_COQ_ONLY", "")
+    if only and not all_files:
+        keep = set(x.strip().upper() for x in only.split(",") if x.strip())
+        files = [f for f in files if f == "Prelude.v" or f.split("_")[0].upper() in keep
+                 or f[:-2].upper() in keep]
+    return files
 
 
 def coq_hash():
@@ -263,9 +271,8 @@ def build_harness(pid, log):
     binp = os.path.join(wd, "harness.bin")
     pkg = "./cmd/verif-%s" % pid.lower()
     t0 = time.time()
-    with Lock(".golock"):
-        rc, out = sh(["go", "build", "-tags", "verif", "-overlay", ovpath, "-o", binp, pkg], cwd=REPO, env=GOENV,
-                     timeout=1500)
+    rc, out = sh(["go", "build", "-tags", "verif", "-overlay", ovpath, "-o", binp, pkg], cwd=REPO, env=GOENV,
+                 timeout=1500)
     log.append("go build %s rc=%d %.1fs" % (pkg, rc, time.time() - t0))
     if rc != 0:
         return None, out.decode(errors="replace")
